@@ -49,6 +49,20 @@ class C06(Spec):
             for x in seq: c += x
             c += ["C 1 snapshot false", "SNAP", "RESTART"]
             cases.append(c)
+        # life cycles: (a few mutations; incremental snapshot; restart) repeated — what the loader rebuilds (disk positions of the
+        # records, tombstones left in place) is only exercised by the NEXT snapshot and shows after the restart that follows it
+        muts = [["C 1 set a 1"], ["C 1 set bb 22"], ["C 1 set a 3"], ["C 1 remove a"], ["C 1 remove bb"], ["C 1 set c x"], ["C 1 increment n"]]
+        AFTER = ["SESS 1", "C 1 auth adm pw", "C 1 use-db t tok"]
+        cyc = 0
+        for m1 in itertools.product(muts, repeat=2):
+            for m2 in muts:
+                for m3 in muts:
+                    cyc += 1
+                    if tier == "quick" and cyc % 3: continue
+                    c = list(SETUP)
+                    for x in m1: c += x
+                    c += ["C 1 snapshot false", "SNAP"] + m2 + ["C 1 snapshot false", "SNAP", "RESTART"] + AFTER + m3 + ["C 1 snapshot false", "SNAP", "RESTART"] + AFTER + ["C 1 keys"]
+                    cases.append(c)
         rng = core.XorShift(seed)
         al2 = alphabet(("a", "bb", "c"))
         for _ in range(500 if tier == "quick" else 8000):
